@@ -341,7 +341,44 @@ def history_job(job):
                     check_wtml_vs_disk(out, part, "tile_fits-%s" % method, cfg)
                     nxt.append(h2)
             frontier = nxt
-        part.states += 3  # empty directory, produced, produced-and-reused (description state)
+        # a first call that dies while tiling (the k-th tile write fails), then the identical call again: whatever
+        # index the directory holds afterwards must agree with the tiles on disk
+        from toasty import pyramid as _pyr
+
+        for k in (1, 3):
+            shutil.rmtree(out, ignore_errors=True)
+            cfg = {"method": method, "inputs": ninputs, "history": ["fresh-faulting-at-write-%d" % k, "reuse"]}
+            part.case(nontrivial=True)
+            transitions += 2
+            real_write = _pyr.PyramidIO.write_image
+            count = [0]
+
+            def failing(self, *a, **kw):
+                count[0] += 1
+                if count[0] == k:
+                    raise OSError(28, "No space left on device (injected)")
+                return real_write(self, *a, **kw)
+
+            _pyr.PyramidIO.write_image = failing
+            try:
+                with quiet():
+                    toasty.tile_fits(paths if len(paths) > 1 else paths[0], out_dir=out, tiling_method=tm, parallel=1, **dict(kw))
+                faulted = False
+            except Exception:
+                faulted = True
+            finally:
+                _pyr.PyramidIO.write_image = real_write
+            if not faulted:
+                continue
+            try:
+                with quiet():
+                    od, bld = toasty.tile_fits(paths if len(paths) > 1 else paths[0], out_dir=out, tiling_method=tm, parallel=1, **dict(kw))
+            except Exception as e:
+                continue  # failing visibly on a half-written directory is acceptable
+            if os.path.exists(os.path.join(out, "index_rel.wtml")):
+                compare_builder_with_disk(bld, out, part, "%s/after-faulted-run" % method, cfg)
+                check_wtml_vs_disk(out, part, "tile_fits-%s-after-faulted-run" % method, cfg)
+        part.states += 4  # empty directory, produced, produced-and-reused, half-written (description state)
         part.transitions += transitions
         part.executions += transitions
     part.sample({"method": method, "history_depth": maxdepth + 1})
@@ -387,6 +424,8 @@ def run(tier, seed):
         ("tile-allsky", 2, "plate-carree-planet", True),
         ("tile-multi-tan", 2),
         ("pipeline", 700, 300),
+        ("pipeline", 200, 150),
+        ("tile-study", 200, 100, False),
     ]
     if tier == "thorough":
         wfs += [("tile-study", 1025, 513, True), ("tile-allsky", 3, "plate-carree-galactic", True), ("tile-multi-tan", 3), ("pipeline", 300, 700), ("tile-study-fits", 1030, 200)]
